@@ -150,8 +150,18 @@ br_ecdsa_i15_vrfy_raw(const br_ec_impl *impl,
 	 */
 	ulen = cd->generator_len;
 	memcpy(eU, pk->q, ulen);
-	res = impl->muladd(eU, NULL, ulen,
-		tx, nlen, ty, nlen, cd->curve);
+	if (br_i15_iszero(t2)) {
+		/*
+		 * The hash value is zero modulo the curve order: the
+		 * multiplier of G is zero, which muladd() does not
+		 * accept, and the point is then simply x*Q. Only public
+		 * values are involved here, so a conditional jump is fine.
+		 */
+		res = impl->mul(eU, ulen, tx, nlen, cd->curve);
+	} else {
+		res = impl->muladd(eU, NULL, ulen,
+			tx, nlen, ty, nlen, cd->curve);
+	}
 
 	/*
 	 * Get the X coordinate, reduce modulo the curve order, and
